@@ -19,6 +19,8 @@ import time
 
 VERIF = os.path.dirname(os.path.dirname(os.path.abspath(__file__)))
 REPO = os.environ.get("VERIF_REPO", "/repo")
+# the repository this run was invoked against; fixed at import (a check may point REPO at a snapshot it builds from)
+REPO_INVOKED = REPO
 TLA_JAR = "/opt/veriftools/tla/tla2tools.jar"
 CM_JAR = "/opt/veriftools/tla/CommunityModules-deps.jar"
 NCPU = os.cpu_count() or 4
@@ -327,7 +329,7 @@ class Ctx:
             ev["coverage"]["notes"] = self.notes
         # evidence describes runs against /repo only: a run against a scratch copy (VERIF_REPO, mutant trials) keeps its
         # record in its scratch directory
-        evdir = os.path.join(VERIF, "evidence") if REPO == "/repo" else self.mkdir("evidence")
+        evdir = os.path.join(VERIF, "evidence") if REPO_INVOKED == "/repo" else self.mkdir("evidence")
         os.makedirs(evdir, exist_ok=True)
         with open(os.path.join(evdir, self.prop + ".json"), "w") as fh:
             json.dump(ev, fh, indent=1, sort_keys=True, default=str)
